@@ -330,7 +330,7 @@ def main() -> int:
             elif vt[rel] != text:
                 if rel == "models/__init__.py":
                     bl = set(text.splitlines())
-                    lost = [x for x in bl if x not in set(vt[rel].splitlines()) and x.strip() and not any(re.search(r"\b" + re.escape(c) + r"\b", x) for c in exempt_classes)]
+                    lost = [x for x in bl if x not in set(vt[rel].splitlines()) and x.strip() and x.strip() not in (")", "__all__ = (") and not any(re.search(r"\b" + re.escape(c) + r"\b", x) for c in exempt_classes)]
                     if not lost:
                         continue
                     vd.violation(f"unrelated_file_changed:{artefact_kind(rel)}:{pos0}", f"{label}: {rel} lost lines {lost[:3]} after inserting {descs} (dependants: {sorted(dep)[:6]})", dict(w, file=rel))
